@@ -124,7 +124,7 @@ def shifted_frames(inp):
     vel = inp.get("drift")
     out = []
     for k, pts in enumerate(inp["frames"]):
-        t = inp["t0"] + k
+        t = inp["t0"] + k * inp.get("tstep", 1)
         if vel:
             out.append([[c + v * t for c, v in zip(p, vel)] for p in pts])
         else:
@@ -139,6 +139,7 @@ def run_impl(inp, extra_kwargs=None, predictor=None):
     dim = inp["dim"]
     frames = shifted_frames(inp)
     t0 = inp["t0"]
+    ts = inp.get("tstep", 1)
     sr = search_range_arg(inp)
     kw = _kwargs(inp, extra_kwargs)
     if predictor is not None:
@@ -150,7 +151,7 @@ def run_impl(inp, extra_kwargs=None, predictor=None):
     if entry == "link_iter":
         def it():
             for k, pts in enumerate(frames):
-                yield t0 + k, np.array(pts, dtype=float).reshape(len(pts), dim)
+                yield t0 + k * ts, np.array(pts, dtype=float).reshape(len(pts), dim)
         gen = tp.link_iter(it(), sr, **kw)
         k = 0
         while True:
@@ -159,7 +160,7 @@ def run_impl(inp, extra_kwargs=None, predictor=None):
             except StopIteration:
                 break
             except SubnetOversizeException:
-                levels.append((t0 + k, frames[k], None))
+                levels.append((t0 + k * ts, frames[k], None))
                 break
             levels.append((int(t), frames[k], [int(i) for i in ids]))
             k += 1
@@ -169,9 +170,12 @@ def run_impl(inp, extra_kwargs=None, predictor=None):
             for k, pts in enumerate(frames):
                 a = np.array(pts, dtype=float).reshape(len(pts), dim)
                 df = pd.DataFrame(a, columns=cols)
-                df["frame"] = t0 + k
+                df["frame"] = t0 + k * ts
                 yield df
-        gen = tp.link_df_iter(dfs(), sr, pos_columns=cols, **kw)
+        if inp.get("null_predict"):
+            gen = tp.predict.NullPredict().link_df_iter(dfs(), sr, pos_columns=cols, **kw)
+        else:
+            gen = tp.link_df_iter(dfs(), sr, pos_columns=cols, **kw)
         k = 0
         while True:
             try:
@@ -179,9 +183,9 @@ def run_impl(inp, extra_kwargs=None, predictor=None):
             except StopIteration:
                 break
             except SubnetOversizeException:
-                levels.append((t0 + k, frames[k], None))
+                levels.append((t0 + k * ts, frames[k], None))
                 break
-            levels.append((t0 + k, [[int(round(v)) for v in row] for row in df[cols].values],
+            levels.append((t0 + k * ts, [[int(round(v)) for v in row] for row in df[cols].values],
                            [int(i) for i in df["particle"].values]))
             k += 1
         return levels
